@@ -8,7 +8,7 @@ def first(*keys):
     for k in keys:
         if k in j: return j[k]
     return None
-files = first('coqproject_files', 'coqproject_add_in_order', 'coqproject', 'coq_files', '_CoqProject') or []
+files = first('coqproject_files', 'coqproject_add_in_order', 'coq_project_files_in_dependency_order', 'coqproject', 'coq_files', '_CoqProject') or []
 p = os.path.join(V, 'coq', '_CoqProject'); s = open(p).read().rstrip('\n').split('\n')
 props = [l for l in s if l.startswith('Props/')]
 others = [l for l in s if not l.startswith('Props/')]
